@@ -1097,6 +1097,11 @@ class Evaluator:
             # a private predicate / observer method without effects (`fn has_remaining(&self) -> bool { self.count < self.slice.len() }`)
             if t2 == ['eps'] and hf.get('kind') == 'AssocFn' and isinstance(sv2, tuple) and sv2 and sv2[0] in ('bin', 'un', 'lit', 'call', 'matchval', 'ifval'):
                 return (v2, pre)
+            # a private free function that only forwards its parameters to one other function
+            # (`fn item_count_encoded_bytesize(n: u32) -> usize { Compact::<u32>::compact_len(&n) }`): the call it makes
+            if t2 == ['eps'] and hf.get('kind') == 'Fn' and isinstance(sv2, tuple) and len(sv2) > 3 and sv2[0] == 'call' and sv2[1] != name and \
+                    sv2[3] and all(_is_forwarded_param(a, argv) for a in sv2[3]):
+                return (v2, pre)
             if not hasattr(self, '_pure_helpers'):
                 self._pure_helpers = set()
             self._pure_helpers.add(f)
@@ -1158,6 +1163,19 @@ class Evaluator:
             # the raw bytes of the value, without any framing
             return ['write', sl]
         return self.opaque('callback argument of unrecognised form', e, ctx)
+
+
+def _is_forwarded_param(a, argv):
+    a = strip(a)
+    while isinstance(a, tuple) and a and a[0] in ('ref', 'deref') and len(a) > 1:
+        a = strip(a[1])
+    for x in argv:
+        x = strip(x)
+        while isinstance(x, tuple) and x and x[0] in ('ref', 'deref') and len(x) > 1:
+            x = strip(x[1])
+        if a == x:
+            return True
+    return False
 
 
 def _generic_map(callee, call):
